@@ -38,6 +38,11 @@ Theorem c14_ginv_add : forall cfg a s, cfg_ok cfg -> GInv cfg a -> sol_ok cfg s 
   exists a' r, ga_add cfg a s = Some (a', r) /\ GInv cfg a'.
 Proof. exact ginv_add_pres. Qed.
 
+(* every bulk entry point (append, extend, +=) calls add element by element: a fold of add *)
+Theorem c14_ginv_bulk : forall cfg l a, cfg_ok cfg -> GInv cfg a -> Forall (sol_ok cfg) l ->
+  exists a', ga_fold true cfg a l = Some a' /\ GInv cfg a'.
+Proof. exact ginv_bulk. Qed.
+
 (* ... hence after ANY insertion history *)
 Theorem c14_ginv_history : forall cfg l, cfg_ok cfg -> Forall (sol_ok cfg) l ->
   exists a, ga_run cfg l = Some a /\ GInv cfg a.
